@@ -206,6 +206,8 @@ def run(ctx) -> None:
   ctx.rule('R7', 'the SQL engine/connection is not put into autocommit: explicit commit() is the only '
            'durability point (the transaction shape of R1/R2 is meaningless otherwise)', 1)
   ctx.rule('R8', 'opening the datastore (constructor and what it calls) writes no rows', 1)
+  ctx.import_rules('C07', {'R4', 'R8'}, 'R9', 'acknowledged rows are not removed by an operation on another study: exact key filters, exact cascade')
+  ctx.import_rules('C01', {'R1'}, 'R10', 'what the servicer writes back is the row it loaded in the same RPC (no in-process copy that outlives a request)')
   ctx.trust('SQLite: commit() makes all pending statements durable atomically; rollback() discards them')
   r7_engine_config(ctx, svc)
   sql = svc.sql
